@@ -36,8 +36,10 @@ theorem gen_hex_dirs : Generated.C18.hexDirs = Model.C18.hexDirs ∧ Generated.C
 
 /-- `hex_ring(k)` is the model's ring walk (start `(−k, k, 0)`, six sides of `k` tiles, rolled by `k`), for every `k` -/
 theorem gen_hex_ring (k : Nat) : Generated.C18.hexRing k = Model.C18.hexRing k := by
-  simp only [Generated.C18.hexRing, Model.C18.hexRing, Generated.C18.hexRingRoll, Generated.C18.hexRingSideLen,
-    Generated.C18.hexRingStart, Int.toNat_natCast, gen_hex_dirs.2.1, gen_hex_dirs.2.2]
+  first
+    | rfl
+    | simp only [Generated.C18.hexRing, Model.C18.hexRing, Generated.C18.hexRingRoll, Generated.C18.hexRingSideLen,
+        Generated.C18.hexRingStart, Int.toNat_natCast, gen_hex_dirs.2.1, gen_hex_dirs.2.2]
 
 /-- `_local_window` clamps both axes the way the model does -/
 theorem gen_window (c ic s n : Int) :
@@ -95,7 +97,8 @@ theorem window_in_bounds (c ic s n : Int) (hs : 0 ≤ s) (hn : 0 ≤ n) :
       Generated.C18.windowLoX c ic s n = c + ic - s ∧ Generated.C18.windowHiX c ic s n = c + ic + s) ∧
     0 ≤ Generated.C18.windowLoY c ic s n ∧ Generated.C18.windowLoY c ic s n ≤ Generated.C18.windowHiY c ic s n ∧
     Generated.C18.windowHiY c ic s n ≤ n := by
-  simp only [Generated.C18.windowLoX, Generated.C18.windowHiX, Generated.C18.windowLoY, Generated.C18.windowHiY]
+  simp only [Generated.C18.windowLoX, Generated.C18.windowHiX, Generated.C18.windowLoY, Generated.C18.windowHiY,
+    windowLo, windowHi, clamp]
   refine ⟨?_, ?_, ?_, ?_, ?_, ?_, ?_, ?_⟩ <;> split_ifs <;> omega
 
 /-! ## hexagons do not overlap -/
@@ -121,7 +124,7 @@ theorem hex_gap (w D gap : K) (hw : w * w = 3) (hw0 : 0 < w) :
     Generated.C18.circumradius w D gap * w / 2 = D / 2 ∧
     w * Generated.C18.pitch w D gap - 2 * (Generated.C18.circumradius w D gap * w / 2) = gap := by
   have h0 : w ≠ 0 := ne_of_gt hw0
-  simp only [Generated.C18.circumradius, Generated.C18.pitch]
+  simp only [Generated.C18.circumradius, Generated.C18.pitch, circumradius, pitch]
   constructor <;> field_simp <;> ring
 
 /-- projections of the difference of two lattice centres on the three slab normals are `(pitch·√3/2)` times the
@@ -145,10 +148,11 @@ theorem centre_projections (w P : K) (hw : w * w = 3) (hw0 : 0 < w) (q r s q' r'
   have es' : (s' : K) = -(q' : K) - r' := by
     have : ((q' + r' + s' : Int) : K) = 0 := by rw [h0']; simp
     push_cast at this; linear_combination this
-  simp only [Generated.C18.center90, Generated.C18.center0, slabs90, slabs0, Prod.mk.injEq]
+  have e2w : (1 : K) / (2 / w) = w / 2 := by field_simp
+  simp only [Generated.C18.center90, Generated.C18.center0, center90, center0, slabs90, slabs0, Prod.mk.injEq, e2w]
   push_cast
   rw [es, es']
-  refine ⟨⟨?_, ?_, ?_⟩, ⟨?_, ?_, ?_⟩⟩ <;> field_simp <;> ring_nf <;> (try rw [show w ^ 2 = 3 by rw [sq]; exact hw]) <;> ring_nf
+  refine ⟨⟨?_, ?_, ?_⟩, ⟨?_, ?_, ?_⟩⟩ <;> ring
 
 /-- NO POINT OF THE PLANE BELONGS TO TWO SEGMENTS: two different lattice hexagons (any cube coordinates, hence any
 ring count), flat-to-flat diameter `D > 0`, separation `gap > 0`, either orientation, are disjoint as closed sets -/
@@ -223,12 +227,12 @@ theorem hex_vertices_in_slabs (w rho x0 y0 : K) (hw : w * w = 3) (hw0 : 0 < w) (
   have hrw : 0 ≤ rho * w := mul_nonneg hr hw0.le
   constructor
   · intro v hv
-    simp only [Generated.C18.hexVertices90, List.mem_cons, List.not_mem_nil, or_false] at hv
+    simp only [Generated.C18.hexVertices90, hexVertices90, List.mem_cons, List.not_mem_nil, or_false] at hv
     rcases hv with rfl | rfl | rfl | rfl | rfl | rfl <;>
       simp only [inHex, inSlabs, slabs, if_true, slabs90] <;>
       refine ⟨⟨?_, ?_⟩, ⟨?_, ?_⟩, ⟨?_, ?_⟩⟩ <;> nlinarith
   · intro v hv
-    simp only [Generated.C18.hexVertices0, List.mem_cons, List.not_mem_nil, or_false] at hv
+    simp only [Generated.C18.hexVertices0, hexVertices0, List.mem_cons, List.not_mem_nil, or_false] at hv
     rcases hv with rfl | rfl | rfl | rfl | rfl | rfl <;>
       simp only [inHex, inSlabs, slabs, Bool.false_eq_true, if_false, slabs0] <;>
       refine ⟨⟨?_, ?_⟩, ⟨?_, ?_⟩, ⟨?_, ?_⟩⟩ <;> nlinarith
@@ -345,11 +349,11 @@ theorem prims_are_inequalities (ρ rin rout r width height a b c s x y : K) :
     (Generated.C18.ellipse a b c s x y ↔ (x * c + y * s) ^ 2 / a ^ 2 + (x * s - y * c) ^ 2 / b ^ 2 ≤ 1) ∧
     (Generated.C18.vane abs width x y ↔ 0 < x ∧ |y| < width / 2) := by
   refine ⟨Iff.rfl, Iff.rfl, ?_, ?_, Iff.rfl⟩
-  · simp only [Generated.C18.rectangle, abs_le]
+  · simp only [Generated.C18.rectangle, Model.C18.rectangle, abs_le]
     constructor
     · rintro ⟨⟨h1, h2⟩, h3, h4⟩; exact ⟨⟨h4, h3⟩, h2, h1⟩
     · rintro ⟨⟨h1, h2⟩, h3, h4⟩; exact ⟨⟨h4, h3⟩, h2, h1⟩
-  · simp only [Generated.C18.ellipse, not_lt, gt_iff_lt, sq]
+  · simp only [Generated.C18.ellipse, Model.C18.ellipse, not_lt, gt_iff_lt, sq]
 
 /-- every primitive grows with its size parameter(s) -/
 theorem prims_monotone (ρ ρ' rin rin' rout rout' r width width' height height' a a' b b' c s x y : K) :
@@ -365,7 +369,7 @@ theorem prims_monotone (ρ ρ' rin rin' rout rout' r width width' height height'
   · rintro h1 h2 ⟨⟨h3, h4⟩, h5, h6⟩
     exact ⟨⟨le_trans h3 h2, by linarith⟩, le_trans h5 h1, by linarith⟩
   · intro ha haa hb hbb
-    simp only [Generated.C18.ellipse, not_lt, gt_iff_lt]
+    simp only [Generated.C18.ellipse, Model.C18.ellipse, not_lt, gt_iff_lt]
     intro h
     have e1 : (x * c + y * s) * (x * c + y * s) / (a' * a') ≤ (x * c + y * s) * (x * c + y * s) / (a * a) :=
       div_le_div_of_nonneg_left (mul_self_nonneg _) (mul_pos ha ha) (by nlinarith)
@@ -373,7 +377,7 @@ theorem prims_monotone (ρ ρ' rin rin' rout rout' r width width' height height'
       div_le_div_of_nonneg_left (mul_self_nonneg _) (mul_pos hb hb) (by nlinarith)
     linarith
   · intro h
-    simp only [Generated.C18.vane]
+    simp only [Generated.C18.vane, Model.C18.vane]
     rintro ⟨h1, h2⟩
     exact ⟨h1, by linarith⟩
 
@@ -388,20 +392,20 @@ theorem prims_symmetric (width height a b c s x y : K) :
     (Generated.C18.ellipse a b 1 0 x y ↔ Generated.C18.ellipse a b 1 0 x (-y)) ∧
     (Generated.C18.vane abs width x y ↔ Generated.C18.vane abs width x (-y)) := by
   refine ⟨?_, ?_, ?_, ?_, ?_, ?_⟩
-  · simp only [Generated.C18.rectangle, neg_le_neg_iff]
+  · simp only [Generated.C18.rectangle, Model.C18.rectangle, neg_le_neg_iff]
     constructor <;> rintro ⟨h1, h2, h3⟩ <;> exact ⟨h1, by linarith, by linarith⟩
-  · simp only [Generated.C18.rectangle, neg_le_neg_iff]
+  · simp only [Generated.C18.rectangle, Model.C18.rectangle, neg_le_neg_iff]
     constructor <;> rintro ⟨⟨h1, h2⟩, h3⟩ <;> exact ⟨⟨by linarith, by linarith⟩, h3⟩
-  · simp only [Generated.C18.ellipse]
+  · simp only [Generated.C18.ellipse, Model.C18.ellipse]
     rw [show (-x * c + -y * s) * (-x * c + -y * s) = (x * c + y * s) * (x * c + y * s) by ring,
       show (-x * s - -y * c) * (-x * s - -y * c) = (x * s - y * c) * (x * s - y * c) by ring]
-  · simp only [Generated.C18.ellipse]
+  · simp only [Generated.C18.ellipse, Model.C18.ellipse]
     rw [show (-x * 1 + y * 0) * (-x * 1 + y * 0) = (x * 1 + y * 0) * (x * 1 + y * 0) by ring,
       show (-x * 0 - y * 1) * (-x * 0 - y * 1) = (x * 0 - y * 1) * (x * 0 - y * 1) by ring]
-  · simp only [Generated.C18.ellipse]
+  · simp only [Generated.C18.ellipse, Model.C18.ellipse]
     rw [show (x * 1 + -y * 0) * (x * 1 + -y * 0) = (x * 1 + y * 0) * (x * 1 + y * 0) by ring,
       show (x * 0 - -y * 1) * (x * 0 - -y * 1) = (x * 0 - y * 1) * (x * 0 - y * 1) by ring]
-  · simp only [Generated.C18.vane, abs_neg]
+  · simp only [Generated.C18.vane, Model.C18.vane, abs_neg]
 
 end prims
 
